@@ -228,7 +228,8 @@ def rule_coverage(program, ctx):
     fn, qv, ev, loop = live_matcher(program)
     scope = loop if loop is not None else fn
     for f in FIELDS:
-        tests = [n for n in ast.walk(scope) if isinstance(n, ast.If) and any(isinstance(a, ast.Attribute) and a.attr == f and dotted(a.value) == qv for a in ast.walk(n.test))]
+        from ..lib import expand_aliases
+        tests = [n for n in ast.walk(scope) if isinstance(n, ast.If) and any(isinstance(a, ast.Attribute) and a.attr == f and dotted(a.value) == qv for a in ast.walk(expand_aliases(fn, n.test)))]
         if not tests:
             ctx.bad(finding_func(P, rid, fn, f"the live matcher ignores the filter's `{f}`: events that the stored query would not return are pushed live", text=f"def check_event(...) :: {f}"))
             continue
@@ -239,7 +240,7 @@ def rule_coverage(program, ctx):
             ctx.bad(finding_at(P, rid, t, f"`{f}` is tested but contributes no verdict about the event", text=f))
             continue
         if f in GE0:
-            tt = ast.unparse(t.test)
+            tt = ast.unparse(expand_aliases(fn, t.test))
             if tt == f"{qv}.{f} is not None" or tt == f"{qv}.{f} != None":
                 ctx.ok(rid, t, f"{f}: `is not None` presence test (0 is honoured)")
             else:
